@@ -162,6 +162,9 @@ JOBS = [
     Job('Accumulator.remainder', 'Accumulator::remainder', ['C16', 'C08', 'C13'], replace=['Accumulator::Add'], timeout=300,
         rewrites=[(r'return \*this;', 'return self;')],
         description='reduce the accumulator modulo y: frame, one renormalising Add(0), NaN rule'),
+    Job('Accumulator.times_real', 'Accumulator::operator*=', ['C16', 'C13'], select=r'^\s*T y\s*$', cname='Accumulator_times_real', timeout=300,
+        rewrites=[(r'return \*this;', 'return self;'), (r'using std::fma;', '')],
+        description='multiply the accumulator by a real: frame, NaN rule, exact scaling of both words where the products are exact'),
     # ---- polygon area (C08)
     Job('PolygonArea.transitdirect', 'PolygonAreaT::transitdirect', ['C08', 'C14'], timeout=900, sat='cadical', description='crossing parity for unrolled (direct) edges'),
     Job('PolygonArea.transitdirect.full', 'PolygonAreaT::transitdirect', ['C08'], timeout=3600, sat='cadical', tier='thorough', defines=['TD_MAXTURNS=1073741824'],
@@ -504,7 +507,7 @@ PROPS = {
         level_text='Bit-exact IEEE facts about the short floating-point primitives, for all arguments: TwoSum is an error-free transformation (float), '
                    'AngNormalize range / identity / sign / equivalence modulo 360, AngRound, LatFix, atan2d quadrants and exact axes, sincosd quadrant logic '
                    'and exact special values: discharged by cbmc (loop-free code over full-domain symbolic floats).',
-        level_note='Trusted: exact models of remainder/remquo by 360/90 (conformance-tested against glibc), range-only models of sin/cos/atan2. '
+        level_note='Trusted: exact models of remainder/remquo by 360/90 (conformance-tested against glibc), range-only models of sin/cos/atan2; fma in Accumulator::operator*=(T) modelled unfused (rounded product + rounded sum: its clauses use only exact products). '
                    'Accuracy in ulps of sind/cosd/tand/atan2d, taupf/tauf, and the Accumulator precision claim are not decided.',
         design_ref='DESIGN.md section 5, C16',
         not_decided=['sincosd/atan2d accuracy in ulps (libm accuracy is not modelled)', 'taupf/tauf compose to identity (Newton on transcendental functions)',
